@@ -209,7 +209,12 @@ def _gen_xops(rng, nres, natoms, nops):
     ops, iters = [], 0
     for _ in range(nops):
         k = rng.random()
-        if k < 0.22:
+        if k < 0.06 and nres >= 2:
+            # residue i, one raw line consumed from the handle (file position moves, `_current_atom` does not), then
+            # residue i+1 — whose first atom is where `_current_atom` points
+            i = rng.randrange(nres - 1)
+            ops += [["g", i], ["pr"], ["g", i + 1]]
+        elif k < 0.22:
             ops.append(["g", G.rand_index(rng, nres)])
         elif k < 0.34:
             ops.append(["s"] + list(G.rand_slice(rng, nres, 12)))
@@ -441,6 +446,11 @@ def evaluate(ctx, case):
                 elif op[0] == "o":
                     want = ("E", "TypeError")       # as a Python list answers an index of that type
                     ctx.count("other-index:" + str(op[1]))
+                    if str(op[1]).startswith("np") and res[0] == "R":
+                        # a numpy integer IS an index for a Python list (`__index__`); the view refuses it today.
+                        # Should it ever accept one, it must hand out that residue
+                        want = ("R", [])
+                        ctx.count("other-index:numpy-integer-accepted")
                 elif op[0] == "str":
                     want = ("T", G.expected_str(comp))
                 elif op[0] == "s":
